@@ -26,6 +26,37 @@ CLAIMED = {
         note=BASE_NOTE + "Assumed: IEEE round-to-nearest is monotone and exact on 0,1,2,3 (FlOK); C pow(x,2.0) = correctly rounded x*x.",
         technique='Lean 4 theorems over the translated source + exhaustive threshold-cell correspondence',
         design_ref='DESIGN.md 5/C12'),
+    'C01': dict(
+        category='translation_validation',
+        text=("The record loop's tables and fallbacks (col, delimiter, blank-field defaults, ATOM/ENDMDL prefixes, _format_pdb_linelength, _get_chainID, "
+              "_get_element) are translated from the current source on every run; Model/Parse.lean follows the loop and read_pdb's seven input forms; "
+              "Spec/C01.lean is the property's own column table and rules. Proved so far (Props/C01.lean): the source's column table IS the wwPDB table of the "
+              "statement (delimiter_is_wwpdb), column order/types, the documented defaults, the record prefixes. Correspondence: implementation vs Model vs Spec on "
+              "generated records (every field widest/narrowest/blank, every name alignment, non-blank altLoc/iCode, truncated lines, interleaved other records, "
+              "malformed stream, per-column probes) x the 7 container forms. The per-record equality Model = Spec for all strings is being proved; until it is "
+              "in Props/C01.lean the claim is translation validation, not proof."),
+        note=BASE_NOTE + "Assumed: int()/float() on the modelled decimal grammar; SQLite stores what it is given.",
+        technique='translated tables + hand model validated differentially against the code and the Lean spec; Lean theorems on the tables',
+        design_ref='DESIGN.md 5/C01'),
+    'C02': dict(
+        category='translation_validation',
+        text=("data2pdb's line assembly, _format_atomname and _format_xyz are translated from the current source on every run. Spec/C02.lean is a checker of the "
+              "property's clauses (80 columns, every attribute in its columns, 8-column coordinates with the demanded number of decimals, read-back within half a unit "
+              "of the printed precision, re-export). Proved so far: xyz_out_of_range_raises. Correspondence: every row is written into a real database, exported, re-parsed "
+              "and re-exported; implementation = translated model text-for-text, and the Lean checker accepts every line; every multiple of 0.0005 in windows around all "
+              "format-switch thresholds, range ends and powers of ten; every bundled PDB file's canonical records reproduced."),
+        note=BASE_NOTE + "Assumed: CPython's '{:.kf}' is correctly rounded (= Py.fmtFixed); -0.0 not modelled.",
+        technique='translated formatter validated differentially + Lean spec checker; width/round-trip theorems in progress',
+        design_ref='DESIGN.md 5/C02'),
+    'C09': dict(
+        category='translation_validation',
+        text=("The zone writer's line format and read_zone's line parser are translated from the current source on every run; zone lines for every printable chain "
+              "character x residue numbers (negative, zero, 1-4 digits) go through the library's writer and reader, the translated pair, and the Spec (identity). "
+              "Route agreement {fast,SQL} x {svd,quaternion} x {no zone, zone written, zone read} is compared on generated complexes (equal chains, rank-flipping side chains, "
+              "incomplete decoys, negative numbering). Proved so far: zone_line_format. Known finding C09-F4 (chain '-') is reported as KNOWN-FINDING."),
+        note=BASE_NOTE,
+        technique='translated zone reader/writer validated differentially; route agreement by metamorphic comparison; round-trip theorem in progress',
+        design_ref='DESIGN.md 5/C09'),
 }
 
 checks = []
